@@ -492,7 +492,8 @@ func c11Regions(data []byte) ([]c11Region, error) {
 	var rs []c11Region
 	bi := ib.Iterator()
 	j := 0
-	for bi.SeekToFirst(); bi.Valid(); bi.Next() {
+	// Key() != nil rather than Valid(): an index entry with an empty key is not "valid" but is there
+	for bi.SeekToFirst(); bi.Key() != nil; bi.Next() {
 		loc, err := sstable.ParseBlockLocator(bi.Key(), bi.Value())
 		if err != nil {
 			return nil, err
@@ -840,6 +841,9 @@ func c11Corrupt(dir, path string, es []sEntry, probes [][]byte, args []string, o
 		if off < len(data) {
 			one(off, args[2])
 		}
+	case "frac":
+		f, _ := strconv.Atoi(args[1])
+		one(len(data)*f/10000, args[2])
 	case "all":
 		start, _ := strconv.Atoi(args[1])
 		stride, _ := strconv.Atoi(args[2])
@@ -1035,15 +1039,21 @@ func c11Targets(r *rand.Rand, es []c11GenEntry, idx []int) [][]byte {
 	return ts
 }
 
-func c11WriteCase(w *bufio.Writer, r *rand.Rand, id string, es []c11GenEntry, bloom bool, guard string, nseek int, layout bool) {
+func c11WriteCase(w *bufio.Writer, r *rand.Rand, id string, es []c11GenEntry, bloom bool, guard string, nseek int, ncorrupt int, extra []string) {
 	fmt.Fprintf(w, "case %s bloom=%d guard=%s\n", id, c11b01(bloom), guard)
 	plain := make([]sEntry, len(es))
 	for i, e := range es {
 		fmt.Fprintf(w, "e %s %s %s\n", mkTok(e.key), num(e.seq), e.vtok)
 		plain[i] = sEntry{key: e.key, val: make([]byte, e.vlen)}
 	}
-	if layout {
-		fmt.Fprintf(w, "layout\n")
+	n := len(es)
+	fmt.Fprintf(w, "layout\n")
+	for _, x := range extra {
+		fmt.Fprintf(w, "%s\n", x)
+	}
+	if nseek == 0 {
+		fmt.Fprintf(w, "end\n")
+		return
 	}
 	fmt.Fprintf(w, "scan\n")
 	if r.Intn(2) == 0 {
@@ -1051,7 +1061,6 @@ func c11WriteCase(w *bufio.Writer, r *rand.Rand, id string, es []c11GenEntry, bl
 	}
 	// indexes of interest: block boundaries (first and last entry of every block), the restart
 	// boundaries 15/16/17, the ends, random ones
-	n := len(es)
 	var idx []int
 	cuts := c11Cuts(plain)
 	for _, s := range cuts {
@@ -1110,36 +1119,100 @@ func c11WriteCase(w *bufio.Writer, r *rand.Rand, id string, es []c11GenEntry, bl
 	for i := 0; i < 6; i++ {
 		fmt.Fprintf(w, "get %s\n", mkTok(es[r.Intn(n)].key))
 	}
+	// the block iterator itself, on one data block and on the index block
+	for _, b := range []string{strconv.Itoa(r.Intn(len(cuts))), "i"} {
+		fmt.Fprintf(w, "bit %s\n", b)
+		for k := 0; k < 5; k++ {
+			t := ts[r.Intn(len(ts))]
+			switch r.Intn(6) {
+			case 0:
+				fmt.Fprintf(w, "bfirst\nbnext\n")
+			case 1:
+				fmt.Fprintf(w, "blast\nbnext\n")
+			case 2, 3:
+				fmt.Fprintf(w, "bseek %s\nbnext\n", mkTok(t))
+			default:
+				fmt.Fprintf(w, "bprev %s\nbnext\n", mkTok(t))
+			}
+		}
+	}
+	// single-byte alterations spread over the file (the last 1% holds the index block and the footer
+	// of small files), observed through a full scan and Get/Seek of a few probes
+	if ncorrupt > 0 {
+		for _, i := range []int{0, n / 2, n - 1} {
+			fmt.Fprintf(w, "probe %s\n", mkTok(es[i].key))
+		}
+		fmt.Fprintf(w, "probe %s\n", mkTok(append(append([]byte(nil), es[n/2].key...), 0x01)))
+		modes := "xzoi"
+		for k := 0; k < ncorrupt; k++ {
+			f := r.Intn(10000)
+			if k%3 == 2 {
+				f = 9000 + r.Intn(1000)
+			}
+			fmt.Fprintf(w, "corrupt frac %d %c\n", f, modes[r.Intn(4)])
+		}
+	}
 	fmt.Fprintf(w, "end\n")
 }
 
 func genC11(w *bufio.Writer, seed int64, n int, tier string) {
 	r := rand.New(rand.NewSource(seed*104729 + 11))
+	// two small files whose every byte is altered in four ways, spread over 16 cases
+	small := [2][]c11GenEntry{}
+	rs := rand.New(rand.NewSource(seed*7919 + 5))
+	small[0] = c11GenEntries(rs, 3+rs.Intn(3), 0, 12)
+	small[1] = c11GenEntries(rs, 18+rs.Intn(4), 0, 6)
 	for ci := 0; ci < n; ci++ {
 		id := fmt.Sprintf("c11-%d-%d", seed, ci)
+		if ci < 16 && n >= 32 {
+			t := ci / 8
+			es := small[t]
+			extra := []string{
+				"probe " + mkTok(es[0].key), "probe " + mkTok(es[len(es)-1].key),
+				"probe " + mkTok(append(append([]byte(nil), es[len(es)/2].key...), 0x00)),
+				fmt.Sprintf("corrupt all %d 8 xzoi", ci%8),
+			}
+			c11WriteCase(w, r, id, es, t == 0, "ok", 0, 0, extra)
+			continue
+		}
 		bloom := r.Intn(8) != 0
 		var es []c11GenEntry
-		layout := true
+		ncorrupt := 0
+		var extra []string
 		switch k := ci % 20; {
-		case k < 9: // small tables around the restart interval
+		case k < 10: // small tables around the restart interval
 			cnt := []int{1, 2, 3, 15, 16, 17, 31, 32, 33, 34, 48, 49, 5, 8, 20, 40, 64, 65}[r.Intn(18)]
 			if r.Intn(3) == 0 {
 				cnt = 1 + r.Intn(70)
 			}
 			es = c11GenEntries(r, cnt, 0, 40)
-		case k < 14: // one block, many restart points
-			es = c11GenEntries(r, 80+r.Intn(700), 0, 30)
-		case k < 17: // two or three blocks
-			es = c11GenEntries(r, 150+r.Intn(250), 200, 600)
+			ncorrupt = 6
+			if r.Intn(4) == 0 {
+				b := make([]byte, r.Intn(120))
+				r.Read(b)
+				extra = append(extra, "xxh "+mkTok(b),
+					fmt.Sprintf("footer %s %d %d %d %d %d", num(uint64(r.Int63())), r.Intn(1<<30), r.Intn(1<<20), 1+r.Intn(1000), r.Intn(1<<30), r.Intn(1<<16)))
+			}
+		case k < 16: // one block, many restart points
+			es = c11GenEntries(r, 80+r.Intn(500), 0, 30)
+			ncorrupt = 2
+		case k < 18: // two or three blocks
+			es = c11GenEntries(r, 120+r.Intn(160), 300, 700)
+			ncorrupt = 1
 		case k < 19: // several blocks, larger values
-			es = c11GenEntries(r, 60+r.Intn(120), 1000, 4000)
-		default: // many entries
-			cnt := 1500 + r.Intn(1500)
+			es = c11GenEntries(r, 60+r.Intn(80), 1500, 4000)
+			ncorrupt = 1
+		default: // many entries, several blocks
+			cnt := 1200 + r.Intn(1200)
 			if tier == "thorough" && r.Intn(3) == 0 {
 				cnt = 4000 + r.Intn(1001)
 			}
-			es = c11GenEntries(r, cnt, 50, 300)
+			es = c11GenEntries(r, cnt, 20, 120)
+			ncorrupt = 0
+			if tier == "thorough" {
+				ncorrupt = 1
+			}
 		}
-		c11WriteCase(w, r, id, es, bloom, "ok", 30, layout)
+		c11WriteCase(w, r, id, es, bloom, "ok", 30, ncorrupt, extra)
 	}
 }
